@@ -2,6 +2,7 @@ package govc
 
 import (
 	"fmt"
+	"sort"
 	"go/token"
 	"go/types"
 	"strings"
@@ -280,12 +281,21 @@ func (e *Enc) applySpec(fr *Frame, st *State, spec *FuncSpec, ci calleeInfo, arg
 	}
 	pre := st.clone()
 	// frame
-	if spec.ModifiesAll {
-		unsupported("modifies * is not supported (%s)", spec.Name)
-	}
 	mods, err := e.P.expandHeaps(spec.Modifies)
 	if err != nil {
 		unsupported("%s: %v", spec.Name, err)
+	}
+	if spec.ModifiesAll {
+		// "modifies *": the callee may write any heap known so far (object type tags and the allocation order are
+		// kept: a callee cannot retype or deallocate an object)
+		mods = mods[:0]
+		for h := range e.hsorts {
+			if h == "ghost:objtype" || strings.HasPrefix(h, "lghost:") {
+				continue
+			}
+			mods = append(mods, h)
+		}
+		sort.Strings(mods)
 	}
 	for _, h := range mods {
 		e.ensureHeapKnown(h)
